@@ -8,7 +8,7 @@ Record pub_case := PubCase {
   pk_obs : list pobs;                   (* the calls as observed, in (linearised) order *)
   pk_tab : list (plabel * nat);         (* publish_time_seconds sample counts, gathered at the end *)
   pk_final : list pmsg;                 (* all message objects at the end *)
-  pk_close : nat * option N * option N  (* Close: calls seen by the wrapped publisher, its answer, what Close returned *)
+  pk_close : nat * list (option N * option N)  (* Close called 1-3 times: calls seen by the wrapped publisher; per call its answer and what Close returned *)
 }.
 
 (** the in-place model (Decor/Heap.v): also right when a batch holds the same object twice *)
@@ -41,14 +41,16 @@ Definition pub_mismatch (c : pub_case) : bool :=
   negb (pcmp (pk_st c) (PS (pk_heap c) (pk_script c) [] [] []) (pk_calls c) (pk_obs c)
         && list_eqb pmsg_eqb (ps_heap s) (pk_final c)
         && counts_agree plabel_eqb (pk_tab c) (ps_obs s)
-        && close_eqb (pclose (pk_st c) (snd (fst (pk_close c)))) (fst (fst (pk_close c)), snd (pk_close c))).
+        && forallb (fun x => close_eqb (pclose (pk_st c) (fst x)) (1%nat, snd x)) (snd (pk_close c))
+        && Nat.eqb (fst (pk_close c)) (length (snd (pk_close c)))).
 
 (** [pk_heap] holds objects that were never handed to a metrics-decorated publisher: none of them
     may carry the publish mark (whatever else they have been through) *)
 Definition pub_violates (c : pub_case) : bool :=
   negb (forallb (fun m => negb (pm_mark m)) (pk_heap c)
         && pub_monitor_full (pk_st c) (pk_obs c) (pk_tab c)
-        && close_eqb (1%nat, snd (fst (pk_close c))) (fst (fst (pk_close c)), snd (pk_close c))).
+        && forallb (fun x => optN_eqb (fst x) (snd x)) (snd (pk_close c))   (* every Close call returns the wrapped answer of THAT call *)
+        && Nat.eqb (fst (pk_close c)) (length (snd (pk_close c)))).         (* and reaches the wrapped publisher: once per call *)
 
 (** * subscriber stacks *)
 Record sub_case := SubCase {
@@ -159,3 +161,18 @@ Definition mwstack_violates (c : mwstack_case) : bool :=
           (hrun false (erase_inner false (ms_st c)) (ms_h c) (ms_top c) (ms_script c))).
 Definition c20_mwstack_mismatches (dedup : bool) (cs : list mwstack_case) : list nat := positions (map (mwstack_mismatch dedup) cs).
 Definition c20_mwstack_violations (cs : list mwstack_case) : list nat := positions (map mwstack_violates cs).
+
+(** * overlapping invocations of a chain (gates between the applications only schedule; the mark of the
+    repaired middleware lives in the invocation's own message context, so the invocations are
+    independent: the log of a concurrent run is an interleaving of the per-invocation logs) *)
+Record mwconc_case := MwConcCase {
+  mc_st : list hlayer; mc_scripts : list (list hout); mc_tab : list (hlabel * nat)
+}.
+Definition mwconc_logs (dedup : bool) (st : list hlayer) (scripts : list (list hout)) : list (list hlabel) :=
+  map (fun s => snd (heval dedup st false 0%N s)) scripts.
+Definition mwconc_mismatch (c : mwconc_case) : bool :=
+  negb (counts_agree hlabel_eqb (mc_tab c) (concat (mwconc_logs true (mc_st c) (mc_scripts c)))).
+Definition mwconc_violates (c : mwconc_case) : bool :=
+  negb (counts_agree hlabel_eqb (mc_tab c) (concat (mwconc_logs false (erase_inner false (mc_st c)) (mc_scripts c)))).
+Definition c20_mwconc_mismatches (cs : list mwconc_case) : list nat := positions (map mwconc_mismatch cs).
+Definition c20_mwconc_violations (cs : list mwconc_case) : list nat := positions (map mwconc_violates cs).
